@@ -30,7 +30,10 @@ fn main() {
     let cmd = args.get(1).map(|s| s.as_str()).unwrap_or("");
     match cmd {
         "worker" => {
-            std::panic::set_hook(Box::new(|_| {}));
+            std::panic::set_hook(Box::new(|info| {
+                let loc = info.location().map(|l| format!("{}:{}", l.file(), l.line())).unwrap_or_default();
+                *exec::LAST_PANIC_LOCATION.lock().unwrap_or_else(|e| e.into_inner()) = loc;
+            }));
             worker::worker_main();
         }
         "check" => {
